@@ -48,6 +48,9 @@ CONSTANTS
     MaxSteps,
     Lis,          \* the host that listens and accepts (1 or 2); the other one connects.  Hosts run
                   \* in the order 1, 2, so Lis = 2 puts the connector's turn first
+    LatChoices,   \* values (steps) the test may pass to Sim::set_link_latency between steps
+    MaxLat,       \* number of set_link_latency calls
+    Writers,      \* hosts whose programs may write
     WriterFixed,  \* TRUE: an arriving RST wakes a parked writer and writes on a reset stream fail at once
                   \* (commit 12fd6eb; FALSE = the code before it: the writer stays parked forever)
     HalfOpenFixed \* TRUE: a connect that is abandoned while pending sends an RST to the listener
@@ -61,7 +64,9 @@ VARIABLES
     lst,     \* listener of host Lis: [bound, since, q]
     ud,      \* [Hosts -> BOOLEAN]   UDP socket bound (and group joined)
     cn,      \* sequence of connection records, index = connection id (issued by host 2)
-    net,     \* sequence of messages in flight, in send order
+    net,     \* Link::sent: messages in flight, in send order
+    dlv,     \* [Hosts -> sequence]  Link::deliverable: matured messages waiting for the host's turn
+    nlat,    \* set_link_latency calls so far
     oc,      \* [operation id -> connection it works on, 0 if none / not yet known]
     wk,      \* <<kind, connection>> of the operations that returned at the start of the current turn
     nid,     \* operation ids issued so far
@@ -69,7 +74,7 @@ VARIABLES
     nflt,    \* crash / bounce calls so far
     last     \* label of the action taken
 
-ivars == <<phase, todo, cur, hs, lst, ud, cn, net, oc, wk, nid, ndg, nflt>>
+ivars == <<phase, todo, cur, hs, lst, ud, cn, net, dlv, nlat, oc, wk, nid, ndg, nflt>>
 vars  == <<pvars, ivars, last>>
 
 Con == 3 - Lis
@@ -91,6 +96,9 @@ NewConn(cinc, opid) ==
      chan |-> [c |-> 0, s |-> 0],             \* data segments queued for the reader on side x
      fin  |-> [c |-> FALSE, s |-> FALSE],     \* FIN queued for the reader on side x
      rst  |-> [c |-> FALSE, s |-> FALSE],     \* side x's entry was removed by an arriving RST
+     sseq |-> [c |-> 1, s |-> 1],             \* next sequence number side x sends with
+     rseq |-> [c |-> 0, s |-> 0],             \* StreamSocket::recv_seq of side x
+     buf  |-> [c |-> {}, s |-> {}],           \* StreamSocket::buf of side x: segments parked behind a gap
      inl  |-> FALSE]     \* the acceptor's stream was returned by accept() at once (queue not empty)
 
 Init ==
@@ -99,7 +107,7 @@ Init ==
     /\ hs = [h \in Hosts |-> [polls |-> 0, sent |-> 0, fact |-> 1, glive |-> 0]]
     /\ lst = [bound |-> FALSE, since |-> 0, q |-> <<>>]
     /\ ud = [h \in Hosts |-> FALSE]
-    /\ cn = <<>> /\ net = <<>>
+    /\ cn = <<>> /\ net = <<>> /\ dlv = [h \in Hosts |-> <<>>] /\ nlat = 0
     /\ oc = <<>> /\ wk = {} /\ nid = 0 /\ ndg = 0 /\ nflt = 0
     /\ last = [a |-> "init"]
 
@@ -108,7 +116,10 @@ Up(h) == ph[h].up
 Inc(h) == ph[h].inc
 PollsV == [h \in Hosts |-> hs[h].polls]
 SentV  == [h \in Hosts |-> hs[h].sent]
-Msg(k, c, to) == [k |-> k, c |-> c, to |-> to, due |-> pstep + LatSteps]
+\* a message keeps the latency that was in force when it was sent; seq = TCP sequence number
+\* (data and FIN of one direction share a sequence space starting at 1), 0 for the others
+MsgS(k, c, to, seq) == [k |-> k, c |-> c, to |-> to, due |-> pstep + plat, seq |-> seq]
+Msg(k, c, to) == MsgS(k, c, to, 0)
 
 \* pending operation of host h of a kind on connection c (0: any)
 PendOps(h, kind, c) ==
@@ -117,6 +128,17 @@ PendOps(h, kind, c) ==
 ---------------------------------------------------------------------------
 (* Delivery: Host::receive_from_network for every mature message addressed  *)
 (* to h, in order.  W = [cn, lst, net, got] is threaded through.            *)
+
+\* StreamSocket::buffer on side x of connection record r: park the segment, then release
+\* every segment that is next in sequence into the channel
+RECURSIVE Release(_, _)
+Release(r, x) ==
+    IF \E e \in r.buf[x] : e.seq = r.rseq[x] + 1
+    THEN LET e == CHOOSE e \in r.buf[x] : e.seq = r.rseq[x] + 1
+             r1 == [r EXCEPT !.buf[x] = @ \ {e}, !.rseq[x] = @ + 1]
+         IN Release(IF e.k = "data" THEN [r1 EXCEPT !.chan[x] = @ + 1] ELSE [r1 EXCEPT !.fin[x] = TRUE], x)
+    ELSE r
+Buffer(r, x, seq, k) == Release([r EXCEPT !.buf[x] = @ \cup {[seq |-> seq, k |-> k]}], x)
 
 DeliverOne(W, m, h) ==
     LET side == SideOf(h)  c == m.c IN
@@ -127,11 +149,11 @@ DeliverOne(W, m, h) ==
                 [W EXCEPT !.cn[c].ack = "ref"]
       [] m.k = "data" ->
            IF W.cn[c].ent[side]
-           THEN [W EXCEPT !.cn[c].chan[side] = @ + 1]
+           THEN [W EXCEPT !.cn[c] = Buffer(@, side, m.seq, "data")]
            ELSE [W EXCEPT !.net = Append(@, Msg("rst", c, Other(h)))]
       [] m.k = "fin" ->
            IF W.cn[c].ent[side]
-           THEN [W EXCEPT !.cn[c].fin[side] = TRUE]
+           THEN [W EXCEPT !.cn[c] = Buffer(@, side, m.seq, "fin")]
            ELSE W      \* a FIN for a stream that is already closed here is ignored (commit 4f46db4)
       [] m.k = "rst" ->
            IF W.cn[c].ent[side]
@@ -144,7 +166,6 @@ RECURSIVE DeliverAll(_, _, _)
 DeliverAll(W, ms, h) ==
     IF ms = <<>> THEN W ELSE DeliverAll(DeliverOne(W, Head(ms), h), Tail(ms), h)
 
-Mature(m, h) == m.to = h /\ m.due <= pstep
 
 ---------------------------------------------------------------------------
 (* Woken tasks of host h: every pending operation whose condition holds     *)
@@ -194,7 +215,8 @@ CompleteOne(R, o) ==
            THEN [R EXCEPT !.res = Append(@, <<o, "err">>)]     \* reset flag is checked before the credits
            ELSE IF R.cn[c].cred[x] > 0
            THEN IF R.cn[c].ent[x]
-                THEN [R EXCEPT !.cn[c].cred[x] = @ - 1, !.net = Append(@, Msg("data", c, Other(h))),
+                THEN [R EXCEPT !.cn[c].cred[x] = @ - 1, !.cn[c].sseq[x] = @ + 1,
+                               !.net = Append(@, MsgS("data", c, Other(h), R.cn[c].sseq[x])),
                                !.res = Append(@, <<o, "ok">>)]
                 ELSE \* WriteHalf::seq fails: BrokenPipe
                      [R EXCEPT !.cn[c].cred[x] = @ - 1, !.res = Append(@, <<o, "err">>)]
@@ -214,19 +236,23 @@ StepBegin ==
     /\ P_StepBegin
     /\ phase' = "turn" /\ cur' = 0
     /\ todo' = SelectSeq(<<1, 2>>, LAMBDA h : Up(h))
+    \* Link::tick -> process_deliverables: what has matured moves, in send order, to the queue of
+    \* its destination (where it waits for the destination's next turn, however long it is down)
+    /\ dlv' = [h \in Hosts |-> dlv[h] \o SelectSeq(net, LAMBDA m : m.to = h /\ m.due <= pstep + 1)]
+    /\ net' = SelectSeq(net, LAMBDA m : m.due > pstep + 1)
     /\ last' = [a |-> "step_begin"]
-    /\ UNCHANGED <<hs, lst, ud, cn, net, oc, nid, ndg, nflt, wk>>
+    /\ UNCHANGED <<hs, lst, ud, cn, nlat, oc, nid, ndg, nflt, wk>>
 
 TurnBegin(h) ==
     /\ phase = "turn" /\ cur = 0 /\ todo # <<>> /\ h = Head(todo)
-    /\ LET ms  == SelectSeq(net, LAMBDA m : Mature(m, h))
-           W0  == [cn |-> cn, lst |-> lst, net |-> SelectSeq(net, LAMBDA m : ~Mature(m, h)), got |-> <<>>]
+    /\ LET ms  == dlv[h]
+           W0  == [cn |-> cn, lst |-> lst, net |-> net, got |-> <<>>]
            W1  == DeliverAll(W0, ms, h)
            pend == {o \in OpIds : Pending(o) /\ pops[o].h = h}
            R0  == [cn |-> W1.cn, lst |-> W1.lst, net |-> W1.net, res |-> <<>>, acc |-> <<>>]
            R1  == IF pend = {} THEN R0 ELSE CompleteAll(R0, SortedIds(pend))
        IN
-       /\ cn' = R1.cn /\ lst' = R1.lst /\ net' = R1.net
+       /\ cn' = R1.cn /\ lst' = R1.lst /\ net' = R1.net /\ dlv' = [dlv EXCEPT ![h] = <<>>]
        /\ oc' = [o \in DOMAIN oc |->
                     IF \E i \in 1..Len(R1.acc) : R1.acc[i][1] = o
                     THEN R1.acc[CHOOSE i \in 1..Len(R1.acc) : R1.acc[i][1] = o][2]
@@ -236,7 +262,7 @@ TurnBegin(h) ==
                     IF pops[R1.res[i][1]].kind = "accept" THEN 0 ELSE oc[R1.res[i][1]]>> : i \in 1..Len(R1.res)}
        /\ last' = [a |-> "turn", h |-> h, got |-> W1.got, res |-> R1.res, acc |-> R1.acc]
     /\ cur' = h /\ todo' = Tail(todo)
-    /\ UNCHANGED <<pstep, pdg, phase, hs, ud, nid, ndg, nflt>>
+    /\ UNCHANGED <<pstep, pdg, phase, hs, ud, nid, ndg, nflt, plat, nlat>>
 
 CanCmd(h, op) == phase = "turn" /\ cur = h /\ op \in Ops /\ nid < MaxOps
 
@@ -253,7 +279,7 @@ CmdListen ==        \* TcpListener::bind("0.0.0.0:80") on the listening host
        /\ lst' = IF lst.bound THEN lst ELSE [bound |-> TRUE, since |-> pstep, q |-> <<>>]
        /\ last' = [a |-> "cmd", h |-> Lis, op |-> "listen", id |-> nid + 1, c |-> 0, res |-> res]
     /\ nid' = nid + 1
-    /\ UNCHANGED <<pstep, pdg, phase, todo, cur, hs, ud, cn, net, ndg, nflt, wk>>
+    /\ UNCHANGED <<pstep, pdg, phase, todo, cur, hs, ud, cn, net, ndg, nflt, wk, plat, dlv, nlat>>
 
 CmdAccept ==        \* a task of the listening host calls accept(); the listener was bound in an earlier turn
     /\ CanCmd(Lis, "accept") /\ lst.bound /\ lst.since < pstep
@@ -271,21 +297,22 @@ CmdAccept ==        \* a task of the listening host calls accept(); the listener
        /\ last' = [a |-> "cmd", h |-> Lis, op |-> "accept", id |-> nid + 1, c |-> a,
                    res |-> IF a = 0 THEN "" ELSE "ok"]
     /\ nid' = nid + 1
-    /\ UNCHANGED <<pstep, pdg, phase, todo, cur, hs, ud, net, ndg, nflt, wk>>
+    /\ UNCHANGED <<pstep, pdg, phase, todo, cur, hs, ud, net, ndg, nflt, wk, plat, dlv, nlat>>
 
 CmdConnect ==       \* a task of the connecting host calls TcpStream::connect("<listener>:80")
     /\ CanCmd(Con, "connect") /\ Len(cn) < MaxConn
     \* Tcp::receive_from_network panics ("server socket buffer full") when a SYN meets a
     \* listener queue that already holds `capacity` requests - a documented panic, kept
     \* out of the alphabet: at most Cap requests are queued or on their way
-    /\ Len(lst.q) + Cardinality({i \in 1..Len(net) : net[i].k = "syn"}) < Cap
+    /\ Len(lst.q) + Cardinality({i \in 1..Len(net) : net[i].k = "syn"})
+                  + Cardinality({i \in 1..Len(dlv[Lis]) : dlv[Lis][i].k = "syn"}) < Cap
     /\ LET c == Len(cn) + 1 IN
        /\ cn' = Append(cn, NewConn(Inc(Con), nid + 1))
        /\ net' = Append(net, Msg("syn", c, Lis))
        /\ NewOp(nid + 1, Con, "connect", c, "")
        /\ last' = [a |-> "cmd", h |-> Con, op |-> "connect", id |-> nid + 1, c |-> c, res |-> ""]
     /\ nid' = nid + 1
-    /\ UNCHANGED <<pstep, pdg, phase, todo, cur, hs, lst, ud, ndg, nflt, wk>>
+    /\ UNCHANGED <<pstep, pdg, phase, todo, cur, hs, lst, ud, ndg, nflt, wk, plat, dlv, nlat>>
 
 \* the endpoint of c on host h is held by the current incarnation and was handed to the
 \* program in an earlier turn, or in this turn by an accept() that returned at once
@@ -301,22 +328,23 @@ CmdRead(h, c) ==
        /\ NewOp(nid + 1, h, "read", c, rr)
        /\ last' = [a |-> "cmd", h |-> h, op |-> "read", id |-> nid + 1, c |-> c, res |-> rr]
     /\ nid' = nid + 1
-    /\ UNCHANGED <<pstep, pdg, phase, todo, cur, hs, lst, ud, net, ndg, nflt, wk>>
+    /\ UNCHANGED <<pstep, pdg, phase, todo, cur, hs, lst, ud, net, ndg, nflt, wk, plat, dlv, nlat>>
 
 CmdWrite(h, c) ==
-    /\ CanCmd(h, "write") /\ Usable(h, c) /\ PendOps(h, "write", c) = {} /\ <<"write", c>> \notin wk
+    /\ CanCmd(h, "write") /\ h \in Writers /\ Usable(h, c) /\ PendOps(h, "write", c) = {} /\ <<"write", c>> \notin wk
     /\ LET x == SideOf(h)
            isrst == WriterFixed /\ cn[c].rst[x]
            res == IF isrst THEN "err"
                   ELSE IF cn[c].cred[x] > 0 THEN (IF cn[c].ent[x] THEN "ok" ELSE "err")
                   ELSE ""
        IN
-       /\ cn' = IF ~isrst /\ cn[c].cred[x] > 0 THEN [cn EXCEPT ![c].cred[x] = @ - 1] ELSE cn
-       /\ net' = IF res = "ok" THEN Append(net, Msg("data", c, Other(h))) ELSE net
+       /\ cn' = IF ~isrst /\ cn[c].cred[x] > 0
+                THEN [cn EXCEPT ![c].cred[x] = @ - 1, ![c].sseq[x] = IF res = "ok" THEN @ + 1 ELSE @] ELSE cn
+       /\ net' = IF res = "ok" THEN Append(net, MsgS("data", c, Other(h), cn[c].sseq[x])) ELSE net
        /\ NewOp(nid + 1, h, "write", c, res)
        /\ last' = [a |-> "cmd", h |-> h, op |-> "write", id |-> nid + 1, c |-> c, res |-> res]
     /\ nid' = nid + 1
-    /\ UNCHANGED <<pstep, pdg, phase, todo, cur, hs, lst, ud, ndg, nflt, wk>>
+    /\ UNCHANGED <<pstep, pdg, phase, todo, cur, hs, lst, ud, ndg, nflt, wk, plat, dlv, nlat>>
 
 CmdUbind(h) ==      \* UdpSocket::bind("0.0.0.0:90") + join_multicast_v4
     /\ CanCmd(h, "ubind")
@@ -325,7 +353,7 @@ CmdUbind(h) ==      \* UdpSocket::bind("0.0.0.0:90") + join_multicast_v4
        /\ last' = [a |-> "cmd", h |-> h, op |-> "ubind", id |-> nid + 1, c |-> 0, res |-> res]
     /\ ud' = [ud EXCEPT ![h] = TRUE]
     /\ nid' = nid + 1
-    /\ UNCHANGED <<pstep, pdg, phase, todo, cur, hs, lst, cn, net, ndg, nflt, wk>>
+    /\ UNCHANGED <<pstep, pdg, phase, todo, cur, hs, lst, cn, net, ndg, nflt, wk, plat, dlv, nlat>>
 
 CmdUsend(h) ==      \* send_to(other:90) through the host's own socket
     /\ CanCmd(h, "usend") /\ ud[h] /\ "udp" \in ph[h].bound
@@ -334,28 +362,28 @@ CmdUsend(h) ==      \* send_to(other:90) through the host's own socket
     /\ hs' = [hs EXCEPT ![h].sent = @ + 1]
     /\ ndg' = ndg + 1 /\ nid' = nid + 1
     /\ last' = [a |-> "cmd", h |-> h, op |-> "usend", id |-> nid + 1, c |-> ndg + 1, res |-> "ok"]
-    /\ UNCHANGED <<pstep, ph, pops, phase, todo, cur, lst, ud, cn, oc, nflt, wk>>
+    /\ UNCHANGED <<pstep, ph, pops, phase, todo, cur, lst, ud, cn, oc, nflt, wk, dlv, nlat>>
 
 CmdBg(h) ==         \* spawn a background task that holds a drop guard
     /\ CanCmd(h, "bg")
     /\ hs' = [hs EXCEPT ![h].glive = @ + 1]
     /\ nid' = nid + 1
     /\ last' = [a |-> "cmd", h |-> h, op |-> "bg", id |-> nid + 1, c |-> 0, res |-> "ok"]
-    /\ UNCHANGED <<pvars, phase, todo, cur, lst, ud, cn, net, oc, ndg, nflt, wk>>
+    /\ UNCHANGED <<pvars, phase, todo, cur, lst, ud, cn, net, oc, ndg, nflt, wk, dlv, nlat>>
 
 TurnEnd ==
     /\ phase = "turn" /\ cur # 0
     /\ hs' = [hs EXCEPT ![cur].polls = @ + Tick]
     /\ cur' = 0 /\ wk' = {}
     /\ last' = [a |-> "turn_end", h |-> cur]
-    /\ UNCHANGED <<pvars, phase, todo, lst, ud, cn, net, oc, nid, ndg, nflt>>
+    /\ UNCHANGED <<pvars, phase, todo, lst, ud, cn, net, oc, nid, ndg, nflt, dlv, nlat>>
 
 StepEnd ==
     /\ phase = "turn" /\ cur = 0 /\ todo = <<>>
     /\ P_StepEnd(PollsV, SentV)
     /\ phase' = "ctl"
     /\ last' = [a |-> "step_end", polls |-> PollsV, sent |-> SentV]
-    /\ UNCHANGED <<todo, cur, hs, lst, ud, cn, net, oc, nid, ndg, nflt, wk>>
+    /\ UNCHANGED <<todo, cur, hs, lst, ud, cn, net, oc, nid, ndg, nflt, wk, dlv, nlat>>
 
 ---------------------------------------------------------------------------
 (* cancel_tasks: every task of h is dropped, so every socket destructor runs *)
@@ -364,9 +392,11 @@ StepEnd ==
 \* dropped before the ReadHalf (FIN, then RST if unread data), else ReadHalf first.
 DropEndpoint(r, x) == [r EXCEPT !.live[x] = FALSE, !.ent[x] = FALSE]
 DropMsgs(r, c, x, fr) ==
-    LET unread == r.chan[x] > 0
+    LET \* ReadHalf::drop: a Data segment in the channel, or (Tcp::has_buffered_data) any Data
+        \* segment parked in the reorder buffer of an entry that still exists
+        unread == r.chan[x] > 0 \/ (r.ent[x] /\ \E e \in r.buf[x] : e.k = "data")
         to == HostOf(OSide(x))
-        fin == <<Msg("fin", c, to)>>   rst == <<Msg("rst", c, to)>>
+        fin == <<MsgS("fin", c, to, r.sseq[x])>>   rst == <<Msg("rst", c, to)>>
     IN IF unread THEN (IF fr /\ r.ent[x] THEN fin \o rst ELSE rst)
        ELSE IF r.ent[x] THEN fin ELSE <<>>
 
@@ -412,7 +442,7 @@ Crash(h, fr) ==
        /\ P_Crash(h, obs)
        /\ last' = [a |-> "crash", h |-> h, obs |-> obs, fr |-> \A k \in DOMAIN fr : ~fr[k]]
     /\ nflt' = nflt + 1
-    /\ UNCHANGED <<phase, todo, cur, oc, nid, ndg, wk>>
+    /\ UNCHANGED <<phase, todo, cur, oc, nid, ndg, wk, dlv, nlat>>
 
 Bounce(h, fr) ==
     /\ phase = "ctl" /\ "bounce" \in Faults /\ h \in Targets /\ nflt < MaxFaults
@@ -426,7 +456,16 @@ Bounce(h, fr) ==
        /\ last' = [a |-> "bounce", h |-> h, obs |-> obs, streams |-> StreamEntries(t[1], h),
                    fr |-> \A k \in DOMAIN fr : ~fr[k]]
     /\ nflt' = nflt + 1
-    /\ UNCHANGED <<phase, todo, cur, oc, nid, ndg, wk>>
+    /\ UNCHANGED <<phase, todo, cur, oc, nid, ndg, wk, dlv, nlat>>
+
+\* Sim::set_link_latency(h1, h2, v) between steps
+SetLat(v) ==
+    /\ phase = "ctl" /\ v \in LatChoices /\ v # plat /\ nlat < MaxLat
+    /\ P_SetLat(v)
+    /\ nlat' = nlat + 1
+    /\ last' = [a |-> "setlat", v |-> v]
+    /\ UNCHANGED <<phase, todo, cur, hs, lst, ud, cn, net, dlv, oc, wk, nid, ndg, nflt>>
+SetLatAny == \E v \in LatChoices : SetLat(v)
 
 \* drop-order choices: one boolean per connection
 FrChoices == [1..Len(cn) -> BOOLEAN]
@@ -453,6 +492,7 @@ Next ==
     \/ StepEnd
     \/ CrashAny
     \/ BounceAny
+    \/ SetLatAny
 
 Spec == Init /\ [][Next]_vars
 
